@@ -23,39 +23,43 @@ Definition nf_obs_evs (evs : list nf_ev) : list nf_oev := flat_map nf_obs_ev evs
 Record nf_opinfo := {
   oi_now : Z;
   oi_ctx : nf_ctx;
-  oi_tick : bool;        (* timer tick (else: a request) *)
-  oi_mayforce : bool;    (* the notification may have been forced: forced request, or tick with a non-empty stash *)
-  oi_remposs : bool      (* tick with nothing stashed and no Problem withheld: a Problem sent now IS a reminder *)
+  oi_tick : bool;              (* timer tick (else: a request) *)
+  oi_forced : list nf_type;    (* types that may be forced: the forced request's type; for a tick the types of
+                                  the forced entries of stashed_notifications *)
+  oi_remposs : bool;           (* tick with no Problem stashed and no Problem withheld: a Problem sent now IS a reminder *)
+  oi_pdefer : bool             (* an unforced Problem may be processed: tick, or unforced Problem request *)
 }.
 
-Definition nf_opinfo_of (stash_empty sup_problem : bool) (o : nf_op) : nf_opinfo :=
+Definition nf_mayforce (oi : nf_opinfo) (ty : nf_type) : bool := existsb (nf_type_eqb ty) (oi_forced oi).
+
+Definition nf_opinfo_of (stash : list nf_stashed) (sup_problem : bool) (o : nf_op) : nf_opinfo :=
   match o with
   | NfRequest now x ty force =>
-      {| oi_now := now; oi_ctx := x; oi_tick := false; oi_mayforce := force; oi_remposs := false |}
+      {| oi_now := now; oi_ctx := x; oi_tick := false; oi_forced := if force then [ty] else []; oi_remposs := false;
+         oi_pdefer := nf_type_eqb ty NfProblem && negb force |}
   | NfTick now x =>
-      {| oi_now := now; oi_ctx := x; oi_tick := true; oi_mayforce := negb stash_empty;
-         oi_remposs := stash_empty && negb sup_problem |}
+      {| oi_now := now; oi_ctx := x; oi_tick := true; oi_forced := map sh_type (filter sh_force stash);
+         oi_remposs := negb (existsb (fun h => nf_type_eqb (sh_type h) NfProblem) stash) && negb sup_problem;
+         oi_pdefer := true |}
   end.
 
-Definition nf_stash_empty (s : nf_state) : bool := match nf_stash s with [] => true | _ => false end.
 Definition nf_opinfo_st (s : nf_state) (o : nf_op) : nf_opinfo :=
-  nf_opinfo_of (nf_stash_empty s) (sp_problem (nf_sup s)) o.
+  nf_opinfo_of (nf_stash s) (sp_problem (nf_sup s)) o.
 
 (* ---- the observer's bookkeeping, from observable events only ---- *)
 Record nf_ghost := {
   g_inc : list Z;          (* users sent a Problem since the last Recovery notification that was processed (NfoClr)
                               and not merely withheld by the notification's closed period *)
   g_pre : list Z;          (* g_inc as it was just before the NfoClr that immediately precedes (the Recovery's own incident) *)
-  g_all : list Z;          (* users sent a Problem since the last Recovery that reached the per-user loop *)
   g_last : list (Z * Z);   (* state of the last Problem each user was sent since the last NfoClr *)
   g_ps : bool;             (* a Problem passed the notification's filters since the last NfoClr / times.begin deferral *)
   g_bad : bool;            (* ... and after it a non-Custom, non-Problem, non-Recovery notification passed them *)
   g_rem : option Z;        (* instant of the last Problem that passed the filters (no deferral, clock not set back since) *)
   g_tm : Z                 (* instant of the current operation *)
 }.
-Definition nf_mkg inc pre all last ps bad rem tm : nf_ghost :=
-  {| g_inc := inc; g_pre := pre; g_all := all; g_last := last; g_ps := ps; g_bad := bad; g_rem := rem; g_tm := tm |}.
-Definition nf_ghost0 : nf_ghost := nf_mkg [] [] [] [] false false None 0.
+Definition nf_mkg inc pre last ps bad rem tm : nf_ghost :=
+  {| g_inc := inc; g_pre := pre; g_last := last; g_ps := ps; g_bad := bad; g_rem := rem; g_tm := tm |}.
+Definition nf_ghost0 : nf_ghost := nf_mkg [] [] [] false false None 0.
 
 Definition nf_add_all (sent l : list Z) : list Z := fold_left (fun l u => nf_npu_add u l) sent l.
 Definition nf_upd_all (st : Z) (sent : list Z) (l : list (Z * Z)) : list (Z * Z) :=
@@ -63,19 +67,19 @@ Definition nf_upd_all (st : Z) (sent : list Z) (l : list (Z * Z)) : list (Z * Z)
 
 (* a non-forced Problem processed now would be deferred by times.begin (next_notification is re-armed,
    no_more_notifications cleared): the observer then forgets reminder bookkeeping *)
-Definition nf_may_defer (c : nf_cfg) (now : Z) (x : nf_ctx) : bool :=
-  nf_opt_active (nfc_begin c) && (now <? cx_lhsc x + nf_opt_val (nfc_begin c)).
+Definition nf_may_defer (c : nf_cfg) (oi : nf_opinfo) : bool :=
+  oi_pdefer oi && nf_opt_active (nfc_begin c) && (oi_now oi <? cx_lhsc (oi_ctx oi) + nf_opt_val (nfc_begin c)).
 
 Definition nf_g_mask (c : nf_cfg) (oi : nf_opinfo) (g : nf_ghost) : nf_ghost :=
-  if nf_may_defer c (oi_now oi) (oi_ctx oi)
-  then nf_mkg (g_inc g) (g_pre g) (g_all g) (g_last g) false (g_bad g) None (g_tm g) else g.
+  if nf_may_defer c oi
+  then nf_mkg (g_inc g) (g_pre g) (g_last g) false (g_bad g) None (g_tm g) else g.
 
 Definition nf_g_start (c : nf_cfg) (oi : nf_opinfo) (g : nf_ghost) : nf_ghost :=
-  nf_g_mask c oi (nf_mkg (g_inc g) (g_pre g) (g_all g) (g_last g) (g_ps g) (g_bad g)
+  nf_g_mask c oi (nf_mkg (g_inc g) (g_pre g) (g_last g) (g_ps g) (g_bad g)
                          (if oi_now oi <? g_tm g then None else g_rem g) (oi_now oi)).
 
 Definition nf_rec_deferred (oi : nf_opinfo) : bool :=
-  cx_per_closed (oi_ctx oi) && (oi_tick oi || negb (oi_mayforce oi)).
+  cx_per_closed (oi_ctx oi) && (oi_tick oi || negb (nf_mayforce oi NfRecovery)).
 
 Definition nf_g_ev (c : nf_cfg) (oi : nf_opinfo) (g : nf_ghost) (e : nf_oev) : nf_ghost :=
   nf_g_mask c oi
@@ -83,15 +87,15 @@ Definition nf_g_ev (c : nf_cfg) (oi : nf_opinfo) (g : nf_ghost) (e : nf_oev) : n
     | NfoClr =>
         (* a Recovery withheld only by the closed period is kept for re-sending (suppressed_notifications):
            the incident is not over for the recipients *)
-        nf_mkg (if nf_rec_deferred oi then g_inc g else []) (g_inc g) (g_all g) [] false false (g_rem g) (g_tm g)
+        nf_mkg (if nf_rec_deferred oi then g_inc g else []) (g_inc g) [] false false (g_rem g) (g_tm g)
     | NfoDone ty sent =>
         if nf_type_eqb ty NfProblem then
-          nf_mkg (nf_add_all sent (g_inc g)) [] (nf_add_all sent (g_all g))
+          nf_mkg (nf_add_all sent (g_inc g)) []
                  (nf_upd_all (nf_api_state (nfc_svc c) (cx_raw (oi_ctx oi))) sent (g_last g))
                  true false (Some (oi_now oi)) (g_tm g)
-        else if nf_type_eqb ty NfRecovery then nf_mkg [] [] [] [] false false (g_rem g) (g_tm g)
-        else if nf_type_eqb ty NfCustom then nf_mkg (g_inc g) [] (g_all g) (g_last g) (g_ps g) (g_bad g) (g_rem g) (g_tm g)
-        else nf_mkg (g_inc g) [] (g_all g) (g_last g) (g_ps g) true (g_rem g) (g_tm g)
+        else if nf_type_eqb ty NfRecovery then nf_mkg [] [] [] false false (g_rem g) (g_tm g)
+        else if nf_type_eqb ty NfCustom then nf_mkg (g_inc g) [] (g_last g) (g_ps g) (g_bad g) (g_rem g) (g_tm g)
+        else nf_mkg (g_inc g) [] (g_last g) (g_ps g) true (g_rem g) (g_tm g)
     end.
 
 Definition nf_g_evs (c : nf_cfg) (oi : nf_opinfo) (g : nf_ghost) (es : list nf_oev) : nf_ghost :=
@@ -117,14 +121,14 @@ Definition nf_rem_ctx_ok (c : nf_cfg) (x : nf_ctx) : bool :=
 
 Definition nf_okA (c : nf_cfg) (oi : nf_opinfo) (ty : nf_type) (u : Z) : bool :=
   existsb (fun ur => (nfu_id ur =? u) && nfu_enable ur
-                     && (oi_mayforce oi || nf_full_ok c (oi_now oi) (oi_ctx oi) ty ur)) (cx_users (oi_ctx oi)).
+                     && (nf_mayforce oi ty || nf_full_ok c (oi_now oi) (oi_ctx oi) ty ur)) (cx_users (oi_ctx oi)).
 Definition nf_okB (c : nf_cfg) (oi : nf_opinfo) (g : nf_ghost) (ty : nf_type) (u : Z) : bool :=
   existsb (fun ur => (nfu_id ur =? u) && nfu_enable ur
-                     && (oi_mayforce oi || nf_full_ok c (oi_now oi) (oi_ctx oi) ty ur)
+                     && (nf_mayforce oi ty || nf_full_ok c (oi_now oi) (oi_ctx oi) ty ur)
                      && (nf_mem u (if nf_type_eqb ty NfRecovery then g_pre g else g_inc g)
                          || negb (nf_passes (nfu_types ur) 32))) (cx_users (oi_ctx oi)).
 
-Inductive nf_verdict := NfVOk | NfVStale | NfVNoMore | NfVBad (code : Z).
+Inductive nf_verdict := NfVOk | NfVNoMore | NfVBad (code : Z).
 
 Definition nf_check (c : nf_cfg) (oi : nf_opinfo) (g : nf_ghost) (e : nf_oev) : nf_verdict :=
   match e with
@@ -145,8 +149,7 @@ Definition nf_check (c : nf_cfg) (oi : nf_opinfo) (g : nf_ghost) (e : nf_oev) : 
       else if isrem && negb (nf_rem_ctx_ok c x) then NfVBad 4
       else if isrem && negb (match g_rem g with Some t => t + nfc_interval c <=? now | None => true end) then NfVBad 5
       (* 2: Recovery / Acknowledgement recipients *)
-      else if isra && negb (forallb (nf_okB c oi g ty) sent) then
-        (if forallb (fun u => nf_okB c oi g ty u || nf_mem u (g_all g)) sent then NfVStale else NfVBad 2)
+      else if isra && negb (forallb (nf_okB c oi g ty) sent) then NfVBad 2
       (* 6: interval 0 *)
       else if isrem && (nfc_interval c <=? 0) && g_ps g then (if g_bad g then NfVNoMore else NfVBad 6)
       else NfVOk
@@ -156,7 +159,7 @@ Definition nf_check (c : nf_cfg) (oi : nf_opinfo) (g : nf_ghost) (e : nf_oev) : 
 Record nf_ostep := {
   os_op : nf_op;
   os_evs : list nf_oev;
-  os_stash_empty : bool;     (* stashed_notifications empty after the op *)
+  os_stash : list nf_stashed; (* stashed_notifications after the op *)
   os_sup_problem : bool      (* suppressed_notifications & Problem after the op *)
 }.
 
@@ -166,20 +169,20 @@ Fixpoint nf_check_evs (c : nf_cfg) (oi : nf_opinfo) (g : nf_ghost) (es : list nf
   | e :: r => nf_check c oi g e :: nf_check_evs c oi (nf_g_ev c oi g e) r
   end.
 
-Fixpoint nf_verdicts (c : nf_cfg) (g : nf_ghost) (se sp : bool) (t : list nf_ostep) : list (list nf_verdict) :=
+Fixpoint nf_verdicts (c : nf_cfg) (g : nf_ghost) (se : list nf_stashed) (sp : bool) (t : list nf_ostep) : list (list nf_verdict) :=
   match t with
   | [] => []
   | o :: r =>
       let oi := nf_opinfo_of se sp (os_op o) in
       let g0 := nf_g_start c oi g in
       nf_check_evs c oi g0 (os_evs o)
-      :: nf_verdicts c (nf_g_evs c oi g0 (os_evs o)) (os_stash_empty o) (os_sup_problem o) r
+      :: nf_verdicts c (nf_g_evs c oi g0 (os_evs o)) (os_stash o) (os_sup_problem o) r
   end.
 
 Definition nf_is_bad (v : nf_verdict) : bool := match v with NfVBad _ => true | _ => false end.
-Definition nf_is_known (v : nf_verdict) : bool := match v with NfVStale | NfVNoMore => true | _ => false end.
+Definition nf_is_known (v : nf_verdict) : bool := match v with NfVNoMore => true | _ => false end.
 Definition nf_verdict_code (v : nf_verdict) : Z :=
-  match v with NfVOk => 0 | NfVStale => 100 | NfVNoMore => 101 | NfVBad k => k end.
+  match v with NfVOk => 0 | NfVNoMore => 101 | NfVBad k => k end.
 
 Fixpoint nf_first (p : nf_verdict -> bool) (idx : Z) (l : list (list nf_verdict)) : option (Z * Z) :=
   match l with
@@ -193,7 +196,7 @@ Fixpoint nf_first (p : nf_verdict -> bool) (idx : Z) (l : list (list nf_verdict)
 
 (* (first step violating C03 outright, first step falling under a recorded finding); (step index, code) *)
 Definition nf_oracle (c : nf_cfg) (t : list nf_ostep) : option (Z * Z) * option (Z * Z) :=
-  let vs := nf_verdicts c nf_ghost0 true false t in
+  let vs := nf_verdicts c nf_ghost0 [] false t in
   (nf_first nf_is_bad 0 vs, nf_first nf_is_known 0 vs).
 
 (* the observed trace of the model *)
@@ -202,6 +205,6 @@ Fixpoint nf_model_trace (c : nf_cfg) (s : nf_state) (h : list nf_op) : list nf_o
   | [] => []
   | o :: r =>
       let '(s', evs) := nf_step c s o in
-      {| os_op := o; os_evs := nf_obs_evs evs; os_stash_empty := nf_stash_empty s';
+      {| os_op := o; os_evs := nf_obs_evs evs; os_stash := nf_stash s';
          os_sup_problem := sp_problem (nf_sup s') |} :: nf_model_trace c s' r
   end.
